@@ -26,6 +26,8 @@ pub enum Dec {
 pub enum TxEnd {
     Commit,
     Drop,
+    /// the transaction is leaked (`mem::forget`): it is abandoned, its destructor never runs
+    Forget,
     RollbackDrop,
     /// rollback, then more operations, then commit (true) or drop (false)
     RollbackThen(Vec<VOp>, bool),
@@ -82,6 +84,7 @@ impl VOp {
                 let e = match end {
                     TxEnd::Commit => "commit".to_string(),
                     TxEnd::Drop => "drop".to_string(),
+                    TxEnd::Forget => "mem::forget".to_string(),
                     TxEnd::RollbackDrop => "rollback;drop".to_string(),
                     TxEnd::RollbackThen(more, c) => {
                         let m: Vec<String> = more.iter().map(|o| o.show()).collect();
@@ -589,13 +592,47 @@ pub fn gen_decs(rng: &mut Rng, len: usize, vmax: u32, stop: bool) -> Vec<Dec> {
 pub fn gen_body(rng: &mut Rng, mut len: usize, n: usize, vmax: u32, oob: bool, trav: bool, maxlen: usize) -> Vec<VOp> {
     let mut m: Vec<u32> = vec![0; len];
     let mut body = vec![];
-    for _ in 0..n {
+    let mut k = 0;
+    while k < n {
+        // long bodies: now and then an uninterrupted run of one and the same kind of call (a bulk load, a bulk
+        // removal, a sweep of sets) - a random mix never produces thirty identical calls in a row
+        if n >= 33 && rng.chance(1, 12) {
+            let run = rng.range(30, 70).min(n - k);
+            let kind = rng.below(4);
+            for j in 0..run {
+                let v = rng.below(vmax as usize) as u32;
+                let op = match kind {
+                    0 => VOp::PushBack(v),
+                    1 => VOp::PushFront(v),
+                    2 if len > 0 => VOp::Set(j % len, v),
+                    _ => {
+                        if rng.chance(1, 2) {
+                            VOp::PopBack
+                        } else {
+                            VOp::PopFront
+                        }
+                    }
+                };
+                model_op(&mut m, &op);
+                len = m.len();
+                body.push(op);
+            }
+            k += run;
+            continue;
+        }
         let op = gen_vop(rng, len, vmax, oob, trav, maxlen);
         model_op(&mut m, &op);
         len = m.len();
         body.push(op);
+        k += 1;
     }
     body
+}
+
+/// VH_NO_LEAKS=1 (set by the sanitizer passes of the driver): histories must not leak anything on purpose
+pub fn no_leaks() -> bool {
+    static V: std::sync::OnceLock<bool> = std::sync::OnceLock::new();
+    *V.get_or_init(|| std::env::var("VH_NO_LEAKS").is_ok() || crate::engine_thr::small())
 }
 
 pub fn gen_txn(rng: &mut Rng, len: usize, vmax: u32, oob: bool, trav: bool, maxlen: usize) -> VOp {
@@ -608,14 +645,33 @@ pub fn gen_txn(rng: &mut Rng, len: usize, vmax: u32, oob: bool, trav: bool, maxl
     } else {
         rng.below(5)
     };
-    let body = gen_body(rng, len, n, vmax, oob, trav, maxlen);
+    let mut body = gen_body(rng, len, n, vmax, oob, trav, maxlen);
     let end = match rng.below(10) {
         0..=5 => TxEnd::Commit,
+        // (not under the sanitizers: Miri's and LSan's leak checks would rightly report the leaked transaction)
+        6 if rng.chance(1, 4) && !no_leaks() => TxEnd::Forget,
         6 => TxEnd::Drop,
         7 => TxEnd::RollbackDrop,
         _ => {
             let n2 = rng.below(3);
-            TxEnd::RollbackThen(gen_body(rng, len, n2, vmax, oob, trav, maxlen), rng.chance(2, 3))
+            let mut more = gen_body(rng, len, n2, vmax, oob, trav, maxlen);
+            // a long body that ends on an uninterrupted run of one kind of call, rolled back and continued with
+            // the same kind of call, now and then
+            if n >= 33 && rng.chance(1, 2) {
+                let kind = rng.below(3);
+                let mk = |rng: &mut Rng| match kind {
+                    0 => VOp::PushBack(rng.below(vmax as usize) as u32),
+                    1 => VOp::PushFront(rng.below(vmax as usize) as u32),
+                    _ => VOp::PopBack,
+                };
+                for _ in 0..rng.range(30, 70) {
+                    let op = mk(rng);
+                    body.push(op);
+                }
+                more.insert(0, mk(rng));
+                more.insert(0, mk(rng));
+            }
+            TxEnd::RollbackThen(more, rng.chance(2, 3))
         }
     };
     VOp::Txn(body, end)
